@@ -479,3 +479,363 @@ class DivConservation(_Conservation):
     def term(self, w, k, phi):
         V, ps = parts(builder(cal, 'divergenceTerm', w.grid)(k))
         return [(lambda P, Va=Va: w.vec(Va, P)) for Va in ps]
+
+
+# ------------------------------------------------------------------------------------------------
+#  TVD with a unit limiter on uniform spacing turns upwind into central                     (C05)
+
+class TvdUnitLimiterIsCentral(AxisOb):
+    """FL == 1, uniform spacing on the axis:  (upwind matrix)*phi - TVD_RHS = (central matrix)*phi  for cells whose
+    two faces on that axis are interior faces (the boundary faces are treated by the matrix terms alone)"""
+    name = 'convectionTvdRHS/unit_limiter_uniform_is_central'
+    props = ('C05',)
+
+    def setup(self, w):
+        u = w.facevar('u')
+        phi = w.rawcell('phi')
+        one = (lambda r: 1.0 + 0.0 * r)
+        V, vs = parts(builder(adv, 'convectionTvdRHS', w.grid)(u, phi, one))
+        Mu, us = parts(builder(adv, 'convectionUpwindTerm', w.grid)(u))
+        Mc, cs = parts(builder(adv, 'convectionTerm', w.grid)(u))
+        return dict(vs=vs, us=us, cs=cs, phi=phi._value)
+
+    def region(self, w):
+        conds = list(w.interior())
+        return conds
+
+    def claims(self, w, S, P, a):
+        N = w.N[a]
+        if w.symbolic:
+            if not (CTX.decide(I(P[a]) >= 2) and CTX.decide(I(P[a]) <= N - 1)):
+                return []
+        elif not (2 <= P[a] <= N - 1):
+            return []
+        lhs = w.apply(S['us'][a], S['phi'], P) - w.vec(S['vs'][a], P)
+        rhs = w.apply(S['cs'][a], S['phi'], P)
+        # uniform spacing on axis a around P (the two neighbours and P have the same size)
+        cs = getattr(w.mesh.cellsize, '_' + AX[a])
+        h0, h1, h2 = w.at(cs, (P[a] - 1,)), w.at(cs, (P[a],)), w.at(cs, (P[a] + 1,))
+        if w.symbolic:
+            hyp = (R.of(h0) == R.of(h1)) & (R.of(h1) == R.of(h2))
+            hm, hp = w.at(cs, (P[a] - 2,)) if CTX.decide(I(P[a]) >= 2) else h0, w.at(cs, (P[a] + 2,)) if CTX.decide(I(P[a]) + 2 <= N + 1) else h2
+            hyp = hyp & (R.of(hm) == R.of(h1)) & (R.of(hp) == R.of(h1))
+            return [('upwind_minus_tvd_is_central[%s]' % AX[a], hyp.implies(w.eq(lhs, rhs)))]
+        return [('upwind_minus_tvd_is_central[%s]' % AX[a], w.eq(lhs, rhs))]
+
+    def hyps(self, w, groups, apps, out):
+        pass
+
+
+# ------------------------------------------------------------------------------------------------
+#  the public dispatchers select the builder of the grid class and forward their arguments   (C05, C04)
+
+class Dispatchers(Ob):
+    """diffusionTerm / convectionTerm / convectionUpwindTerm(u, u_upwind) / convectionTVDupwindRHSTerm(u, phi, FL,
+    u_upwind) / divergenceTerm / gradient- and boundary dispatchers call, on every grid class, exactly the grid's own
+    builder with exactly the arguments given (in particular u_upwind is forwarded) and return its (first) result.
+    Checked by replacing the per-grid builders with recording stand-ins for the duration of the call."""
+    name = 'dispatchers/forward_to_grid_builder'
+    props = ('C05', 'C04', 'C01', 'C06', 'C03')
+
+    def region(self, w):
+        return []
+
+    def points(self, w):
+        return [()]
+
+    def setup(self, w):
+        import contextlib
+        D = w.facevar('D')
+        u = w.facevar('u')
+        uu = w.facevar('uu', 'nonzero')
+        phi = w.rawcell('phi')
+        FL = sym_limiter(w)
+        g = w.grid
+        from .bc import make_bc
+        BC, _ = make_bc(w, 'n' * w.nd)
+        inner = w.array('inner', tuple(w.N))
+        nd = w.nd
+        bsuf = {'Grid1D': '1D', 'CylindricalGrid1D': '1D', 'SphericalGrid1D': '1D', 'Grid2D': '2D',
+                'CylindricalGrid2D': '2D', 'PolarGrid2D': 'Polar2D', 'Grid3D': '3D', 'CylindricalGrid3D': 'Cylindrical3D',
+                'SphericalGrid3D': 'Spherical3D'}[g]
+        cases = [
+            ('diffusionTerm', dif, 'diffusionTerm', 'diffusionTerm' + SUF[g], (D,), nd > 1),
+            ('convectionTerm', adv, 'convectionTerm', 'convectionTerm' + SUF[g], (u,), nd > 1),
+            ('convectionUpwindTerm(u)', adv, 'convectionUpwindTerm', 'convectionUpwindTerm' + SUF[g], (u,), nd > 1),
+            ('convectionUpwindTerm(u,u_upwind)', adv, 'convectionUpwindTerm', 'convectionUpwindTerm' + SUF[g], (u, uu), nd > 1),
+            ('convectionTVDupwindRHSTerm(u,phi,FL)', adv, 'convectionTVDupwindRHSTerm', 'convectionTvdRHS' + SUF[g], (u, phi, FL), nd > 1),
+            ('convectionTVDupwindRHSTerm(u,phi,FL,u_upwind)', adv, 'convectionTVDupwindRHSTerm', 'convectionTvdRHS' + SUF[g], (u, phi, FL, uu), nd > 1),
+            ('divergenceTerm', cal, 'divergenceTerm', 'divergenceTerm' + SUF[g], (u,), nd > 1),
+            ('cellValuesWithBoundaries', bnd, 'cellValuesWithBoundaries', 'cellValuesWithBoundaries' + bsuf, (inner, BC), False),
+            ('boundaryConditionsTerm', bnd, 'boundaryConditionsTerm', 'boundaryConditionsTerm' + bsuf, (BC,), False),
+        ]
+        outcome = {}
+        for label, mod, disp, target, args, first in cases:
+            calls = []
+            sentinel = tuple(object() for _ in range(nd + 1))
+            saved = {}
+            stems = [n for n in vars(mod) if callable(vars(mod)[n]) and n != disp and
+                     (n.startswith(disp if disp != 'convectionTVDupwindRHSTerm' else 'convectionTvdRHS'))]
+            try:
+                for n in stems:
+                    saved[n] = vars(mod)[n]
+
+                    def spy(*a, _n=n, **k):
+                        calls.append((_n, a, k))
+                        return sentinel
+                    vars(mod)[n] = spy
+                res = getattr(mod, disp)(*args)
+            finally:
+                for n, f in saved.items():
+                    vars(mod)[n] = f
+            ok = (len(calls) == 1 and calls[0][0] == target and len(calls[0][1]) == len(args)
+                  and all(x is y for x, y in zip(calls[0][1], args)) and not calls[0][2]
+                  and (res is sentinel[0] if first else res is sentinel))
+            outcome[label] = (ok, [(c[0], len(c[1])) for c in calls])
+        return dict(outcome=outcome)
+
+    def claims(self, w, S, P, part=None):
+        return [('dispatch[%s]' % k, (B.const(ok) if w.symbolic else ok)) for k, (ok, info) in S['outcome'].items()]
+
+
+# ------------------------------------------------------------------------------------------------
+#  flux form: V_P * T_P = A_hi*F_hi - A_lo*F_lo with face quantities shared by the two adjacent cells
+#  (conservation incl. boundary faces: C01;  metric factors / coefficient placement: C02)
+
+def face_area(w, a, P, side):
+    """geometric area of the face of cell P (indices incl. ghosts) normal to axis a, lower (0) / upper (1) side,
+    in the grid's coordinate system (unit thickness / full circle / full sphere where the grid has no such axis)"""
+    import math
+    m = w.mesh
+    g = w.grid
+    pi = R.var('pi') if w.symbolic else math.pi
+
+    def f(b, k):
+        return w.at(getattr(m.facecenters, '_' + AX[b]), (k,))
+
+    def d(b):
+        return f(b, P[b]) - f(b, P[b] - 1)
+    rf = f(0, P[0] - 1 + side)            # radius of the r-face
+    r1, r2 = f(0, P[0] - 1), f(0, P[0])
+    if g == 'Grid1D':
+        return 1
+    if g == 'Grid2D':
+        return d(1 - a)
+    if g == 'Grid3D':
+        o = [b for b in range(3) if b != a]
+        return d(o[0]) * d(o[1])
+    if g == 'CylindricalGrid1D':
+        return 2 * pi * rf
+    if g == 'SphericalGrid1D':
+        return 4 * pi * rf * rf
+    if g == 'CylindricalGrid2D':          # (r, z)
+        return 2 * pi * rf * d(1) if a == 0 else pi * (r2 * r2 - r1 * r1)
+    if g == 'PolarGrid2D':                # (r, theta)
+        return rf * d(1) if a == 0 else d(0)
+    if g == 'CylindricalGrid3D':          # (r, theta, z)
+        if a == 0:
+            return rf * d(1) * d(2)
+        if a == 1:
+            return d(0) * d(2)
+        return (r2 * r2 - r1 * r1) / 2 * d(1)
+    raise KeyError(g)
+
+
+def face_metric(w, a, P):
+    """scale factor h_a of direction a at the faces normal to a of cell P (1, r_P)"""
+    if a == 1 and w.grid in ('PolarGrid2D', 'CylindricalGrid3D'):
+        return w.at(w.mesh.cellcenters._x, (P[0] - 1,))
+    return 1
+
+
+FLUX_GRIDS = tuple(g for g in ALL if g != 'SphericalGrid3D')
+
+
+class _FluxForm(AxisOb):
+    props = ('C01', 'C02')
+    grids = FLUX_GRIDS
+    coef = 'k'
+
+    def setup(self, w):
+        k = w.facevar(self.coef)
+        phi = w.rawcell('phi')
+        return dict(T=self.term(w, k, phi), V=w.mesh.cellvolume, k=k, phi=phi._value)
+
+    def kf(self, w, S, a, P, side):
+        comp = getattr(S['k'], '_' + AX[a] + 'value')
+        return w.at(comp, face_idx(P, a, side))
+
+    def flux(self, w, S, a, P, side):
+        """numerical flux through the lower/upper a-face of P, written symmetrically in the two adjacent cells"""
+        raise NotImplementedError
+
+    def claims(self, w, S, P, a):
+        lhs = cell_volume(w, S, P) * S['T'][a](P)
+        rhs = face_area(w, a, P, 1) * self.flux(w, S, a, P, 1) - face_area(w, a, P, 0) * self.flux(w, S, a, P, 0)
+        if not w.symbolic:
+            w.scale = 100.0
+        return [('flux_form[%s]' % AX[a], w.eq(lhs, rhs))]
+
+
+def _lohi(w, S, a, P, side):
+    lo = P if side == 1 else shift(P, a, -1)
+    hi = shift(P, a, 1) if side == 1 else P
+    return lo, hi
+
+
+class DiffFluxForm(_FluxForm):
+    name = 'diffusionTerm/flux_form'
+    coef = 'D'
+
+    def term(self, w, k, phi):
+        M, ps = parts(builder(dif, 'diffusionTerm', w.grid)(k))
+        return [(lambda P, Ma=Ma: w.apply(Ma, phi._value, P)) for Ma in ps]
+
+    def flux(self, w, S, a, P, side):
+        lo, hi = _lohi(w, S, a, P, side)
+        cs = getattr(w.mesh.cellsize, '_' + AX[a])
+        dist = (w.at(cs, (lo[a],)) + w.at(cs, (hi[a],))) / 2
+        return self.kf(w, S, a, P, side) * (w.at(S['phi'], hi) - w.at(S['phi'], lo)) / (dist * face_metric(w, a, P))
+
+
+class ConvFluxForm(_FluxForm):
+    name = 'convectionTerm/flux_form'
+    coef = 'u'
+
+    def term(self, w, k, phi):
+        M, ps = parts(builder(adv, 'convectionTerm', w.grid)(k))
+        return [(lambda P, Ma=Ma: w.apply(Ma, phi._value, P)) for Ma in ps]
+
+    def flux(self, w, S, a, P, side):
+        lo, hi = _lohi(w, S, a, P, side)
+        cs = getattr(w.mesh.cellsize, '_' + AX[a])
+        hl, hh = w.at(cs, (lo[a],)), w.at(cs, (hi[a],))
+        return self.kf(w, S, a, P, side) * (hh * w.at(S['phi'], lo) + hl * w.at(S['phi'], hi)) / (hl + hh)
+
+
+class UpwindFluxForm(_FluxForm):
+    name = 'convectionUpwindTerm/flux_form'
+    coef = 'u'
+
+    def term(self, w, k, phi):
+        M, ps = parts(builder(adv, 'convectionUpwindTerm', w.grid)(k))
+        return [(lambda P, Ma=Ma: w.apply(Ma, phi._value, P)) for Ma in ps]
+
+    def flux(self, w, S, a, P, side):
+        lo, hi = _lohi(w, S, a, P, side)
+        u = self.kf(w, S, a, P, side)
+        pl, ph = w.at(S['phi'], lo), w.at(S['phi'], hi)
+        N = w.N[a]
+        if w.symbolic:
+            lower_bnd = CTX.decide(I(lo[a]) == 0)
+            upper_bnd = CTX.decide(I(hi[a]) == N + 1)
+            up_pos = (pl + ph) / 2 if lower_bnd else pl       # inflow through the lower boundary: boundary value
+            up_neg = (pl + ph) / 2 if upper_bnd else ph
+            return R.ite(R.of(u) > 0, R.of(u) * R.of(up_pos), R.ite(R.of(u) < 0, R.of(u) * R.of(up_neg), R.const(0)))
+        up_pos = (pl + ph) / 2 if lo[a] == 0 else pl
+        up_neg = (pl + ph) / 2 if hi[a] == N + 1 else ph
+        return u * up_pos if u > 0 else (u * up_neg if u < 0 else 0.0)
+
+
+class DivFluxForm(_FluxForm):
+    name = 'divergenceTerm/flux_form'
+    coef = 'F'
+
+    def term(self, w, k, phi):
+        V, ps = parts(builder(cal, 'divergenceTerm', w.grid)(k))
+        return [(lambda P, Va=Va: w.vec(Va, P)) for Va in ps]
+
+    def flux(self, w, S, a, P, side):
+        return self.kf(w, S, a, P, side)
+
+
+# ------------------------------------------------------------------------------------------------
+#  closed systems: the boundary-face fluxes of the flux form vanish (no-flux walls, u_wall = 0) or cancel
+#  (periodic axis, equal end cells, same coefficient on the two identified faces)        (C01 "Hence ...")
+
+class _ClosedSystem(AxisOb):
+    props = ('C01',)
+    grids = FLUX_GRIDS
+    kind = 'noflux'
+    flux_cls = None
+
+    def setup(self, w):
+        from .bc import make_bc
+        ff = self.flux_cls()
+        if not w.symbolic and self.kind == 'periodic':
+            # native runs: make the hypotheses true (equal end cells, same coefficient on the identified faces)
+            from fvverif.trace import increasing_faces, real_np
+            m0 = T.make_mesh(w.src, w.grid)
+            for a in range(w.nd):
+                f = w.src.values['f' + AX[a]]
+                f[-1] = f[-2] + (f[1] - f[0])
+            w._mesh = None
+        k = w.facevar(ff.coef)
+        if not w.symbolic and self.kind == 'periodic':
+            for a in range(w.nd):
+                arr = getattr(k, '_' + AX[a] + 'value')
+                sl_lo = [slice(None)] * w.nd
+                sl_hi = [slice(None)] * w.nd
+                sl_lo[a], sl_hi[a] = 0, -1
+                arr[tuple(sl_hi)] = arr[tuple(sl_lo)]
+        inner = w.array('phi', tuple(w.N))
+        S = dict(k=k)
+        self._ff = ff
+        S['BCs'] = {}
+        for a in range(w.nd):
+            if self.kind == 'periodic' and GRIDS[w.grid]['radial'] and a == 0:
+                continue
+            pat = ['n'] * w.nd
+            if self.kind == 'periodic':
+                pat[a] = 'l'
+            BC = bnd.BoundaryConditions(w.mesh)       # default: no-flux (a=1, b=0, c=0) on every face
+            if self.kind == 'periodic':
+                getattr(BC, ('left', 'bottom', 'back')[a]).periodic = True
+            S['BCs'][a] = bnd.cellValuesWithBoundaries(inner, BC)
+        return S
+
+    def parts(self, w):
+        return [a for a in range(w.nd) if not (self.kind == 'periodic' and GRIDS[w.grid]['radial'] and a == 0)]
+
+    def claims(self, w, S, P, a):
+        ff = self._ff
+        Plo = list(P)
+        Plo[a] = 1
+        Phi = list(P)
+        Phi[a] = w.N[a]
+        Plo, Phi = tuple(Plo), tuple(Phi)
+        S2 = dict(S)
+        S2['phi'] = S['BCs'][a]
+        Flo = face_area(w, a, Plo, 0) * ff.flux(w, S2, a, Plo, 0)
+        Fhi = face_area(w, a, Phi, 1) * ff.flux(w, S2, a, Phi, 1)
+        klo = ff.kf(w, S2, a, Plo, 0)
+        khi = ff.kf(w, S2, a, Phi, 1)
+        cs = getattr(w.mesh.cellsize, '_' + AX[a])
+        h1, hN = w.at(cs, (1,)), w.at(cs, (w.N[a],))
+        if self.kind == 'noflux':
+            if ff.coef == 'u':
+                # zero wall-normal velocity
+                if w.symbolic:
+                    hyp = (R.of(klo) == 0) & (R.of(khi) == 0)
+                    return [('wall_fluxes_vanish[%s]' % AX[a], hyp.implies((R.of(Flo) == 0) & (R.of(Fhi) == 0)))]
+                return []     # random velocities are not zero at the wall: nothing to evaluate natively
+            return [('wall_fluxes_vanish[%s]' % AX[a], (w.eq(Flo, 0) & w.eq(Fhi, 0)) if w.symbolic else (w.eq(Flo, 0) and w.eq(Fhi, 0)))]
+        if w.symbolic:
+            hyp = (R.of(klo) == R.of(khi)) & (R.of(h1) == R.of(hN))
+            return [('periodic_boundary_fluxes_cancel[%s]' % AX[a], hyp.implies(R.of(Flo) == R.of(Fhi)))]
+        if abs(klo - khi) > 1e-12 or abs(h1 - hN) > 1e-12:
+            return []
+        w.scale = 100.0
+        return [('periodic_boundary_fluxes_cancel[%s]' % AX[a], w.eq(Flo, Fhi))]
+
+
+def _mk_closed():
+    for nm, fc in (('diffusionTerm', DiffFluxForm), ('convectionTerm', ConvFluxForm), ('convectionUpwindTerm', UpwindFluxForm)):
+        for kind in ('noflux', 'periodic'):
+            cn = 'Closed_%s_%s' % (nm, kind)
+            cls = type(cn, (_ClosedSystem,), dict(name='%s/closed_system(%s)' % (nm, kind), kind=kind, flux_cls=fc))
+            cls.__module__ = __name__
+            globals()[cn] = cls
+
+
+_mk_closed()
